@@ -96,6 +96,10 @@ pub fn programs(tier: Tier) -> Vec<Prog> {
     v.push(Prog { text: format!("x := [\"{}\" \"k\"]", t), family: format!("string-constant:matrix:{}", i), must_run: true });
     v.push(Prog { text: format!("a := \"{}\"\nb := \"{}\"\nc := a == b", t, t), family: format!("string-constant:compare:{}", i), must_run: true });
   }
+  // (5a) programs with 1..16, 24, 25 and 26 variables (class A: the symbol table must survive the round trip)
+  for n in (1..=16usize).chain([24usize, 25, 26]) {
+    v.push(Prog { text: (0..n).map(|i| format!("v{} := {}", i, i + 1)).chain(std::iter::once(format!("r := v0 + v{}", n - 1))).collect::<Vec<_>>().join("\n"), family: format!("many-variables:{}", n), must_run: true });
+  }
   // (5b) container constants of every small shape, with a multi-byte string at every position (class B: may fail, never differ)
   {
     let strs = ["a", "éa", "日本", "x😀"];
